@@ -89,8 +89,24 @@ def make_epoch_workload(seed):
     return "\n".join(lines) + "\n", pre, {"shape": "epoch", "threads": nthreads, "kind": "epoch"}
 
 
+def make_session_workload(seed, capacity):
+    """more threads than slots entering and leaving"""
+    r = random.Random("session/%d/%d" % (seed, capacity))
+    lines = ["storage 61", "bg 0", "auto_session 0"]
+    nthreads = r.choice([2, 3, 3, 4]) if capacity <= 3 else r.choice([3, 4, 6, 9])
+    for t in range(nthreads):
+        lines.append("thread %d" % t)
+        for _ in range(r.choice([1, 2, 3])):
+            lines.append("op enter")
+            if r.random() < 0.85:
+                lines.append("op leave")
+    return "\n".join(lines) + "\n", {}, {"shape": "sessions", "threads": nthreads, "kind": "session"}
+
+
 def make_workload(seed, kind, shape=None):
     """returns (text, pre dict, meta)"""
+    if kind.startswith("session"):
+        return make_session_workload(seed, int(kind[7:] or 8))
     if kind == "epoch":
         return make_epoch_workload(seed)
     r = random.Random("%s/%d" % (kind, seed))
